@@ -654,6 +654,12 @@ def _mk_to_native(orig: T.Any, clike: bool) -> T.Any:
                         _violate('to_native-differs-from-eager:' + classify_list_diff(sh.ref.t, list(res), list(exp)),
                                  sh, f'to_native(copy={bool(copy)})', list(res), list(exp),
                                  {'eager_list': list(sh.ref.items)})
+                # "Always returns a copy that can be independently mutated" (Compiler._unix_args_to_native): the
+                # command line handed out must not be an object the argument list itself keeps
+                STATE.count('contract:to_native-result-independent')
+                if any(res is v for v in self.__dict__.values()):
+                    _violate('to_native-hands-out-the-lists-own-storage', sh, f'to_native(copy={bool(copy)})',
+                             'the returned list IS an attribute of the argument list', 'an independent list')
                 if clike and not copy:
                     # documented by the parameter: without copy the list itself receives the group
                     # markers / loses the default -isystem entries
@@ -711,9 +717,71 @@ def install() -> None:
     STATE.installed = True
 
 
+def _mk_compile(orig: T.Any) -> T.Any:
+    """Contract on Compiler.compile(): `extra_args` - the assembled arguments of a compiler check - is added to the
+    command line as ONE increment, so its -I/-L directories stay in their own order and its override-type arguments
+    keep the eager order.  Compared on the real command line the check ran (CompileResult.command)."""
+    import contextlib
+
+    @contextlib.contextmanager
+    def compile(self: T.Any, code: T.Any, extra_args: T.Any = None, **kw: T.Any) -> T.Iterator[T.Any]:
+        ea: T.Optional[T.List[str]] = None
+        if STATE.enabled and not STATE.depth:
+            try:
+                if extra_args is not None and not callable(extra_args):
+                    ea = [a for a in extra_args]
+                    if not all(isinstance(a, str) for a in ea):
+                        ea = None
+                    else:
+                        extra_args = ea if not isinstance(extra_args, _BASE_CLS) else extra_args
+            except Exception as e:
+                _monitor_error('compile', e)
+                ea = None
+        with orig(self, code, extra_args, **kw) as p:
+            if ea is not None:
+                try:
+                    _check_compile(self, ea, list(getattr(p, 'command', None) or []))
+                except Exception as e:
+                    _monitor_error('compile', e)
+            yield p
+    return compile
+
+
+def _check_compile(compiler: T.Any, ea: T.List[str], command: T.List[str]) -> None:
+    syntax, exc = _call(compiler.get_argument_syntax)
+    if exc is not None or syntax != 'gcc' or not command:
+        STATE.count('contract:compile-check:not-gcc-syntax-or-no-command')
+        return
+    probe, exc = _call(compiler.compiler_args)
+    if exc is not None or _TABLES.get(type(probe)) is not refargs.CLIKE:
+        STATE.count('contract:compile-check:unmodelled-class')
+        return
+    t = refargs.CLIKE
+    ref = refargs.RefArgs(t)
+    ref.add_batch(ea)
+    watched = {a for a in ea if t.prepends(a) or t.kind(a) == refargs.OVERRIDDEN}
+    expected = [a for a in ref.items if a in watched]
+    observed = [a for a in command if a in watched]
+    ndirs = len([a for a in expected if t.prepends(a)])
+    STATE.count('contract:compile-check-increment' + (':several-dirs' if ndirs >= 2 else ':trivial'))
+    if observed != expected:
+        _violate('compile-check-arguments-not-one-increment:' + classify_list_diff(t, observed, expected), None,
+                 'Compiler.compile(extra_args)', observed, expected, {'extra_args': ea, 'command': command})
+
+
+def install_compile_contract() -> None:
+    from mesonbuild.compilers import compilers
+    if ('compile', 'contract') in _ORIG:
+        return
+    orig = compilers.Compiler.__dict__['compile']
+    _ORIG[('compile', 'contract')] = orig      # type: ignore[index]
+    compilers.Compiler.compile = _mk_compile(orig)
+
+
 def install_shadow(rec: T.Callable[[dict], None]) -> None:
     """runner.meson monitor: install in the forked child, stream violations, flush counters at exit."""
     install()
+    install_compile_contract()
     STATE.reset()
     STATE.depth = 0
     STATE.enabled = True
